@@ -113,7 +113,7 @@ def judge(case):
 
 
 def shards(tier):
-    k, n = (12, 12) if tier == "quick" else (48, 400)
+    k, n = (12, 30) if tier == "quick" else (48, 400)
     ke, ne = (8, 4) if tier == "quick" else (32, 30)
     return ([{"id": f"o{i}", "n": n, "eri": False} for i in range(k)]
             + [{"id": f"e{i}", "n": ne, "eri": True, "cost": 20 * ne} for i in range(ke)])
